@@ -924,7 +924,7 @@ theorem encStr_step (ds : DecSt) (m : Bytes) (hm : m.length < 4294967296) :
 theorem host_case (hf : ValSpec cfg g f) {st st1 : EncSt} {ds : DecSt} (hs : Sim g st ds) (m n : Bytes) (t : Nat)
     (xs : List Val) (hgt : g[t]? = some (.tuple xs)) (ops1 : List Op) (h1 : f st (.ref t) = some (st1, ops1))
     (hga : g[st1.next]? = some (.host m n (.ref t)))
-    (hhost : ∃ fh, cfg.host = some fh ∧ ∀ ys, fh m n ys = .construct)
+    (hhost : ∃ fh, cfg.host = some fh ∧ ∀ h b ys, fh h b m n ys = .construct)
     (hm : m.length < 4294967296) (hn : n.length < 4294967296) :
     RefSpec cfg g st { memo := (st1.next, st1.memo.length) :: st1.memo, next := st1.next + 1 }
       ([encStr m, encStr n, .stackGlobal] ++ ops1 ++ [.newobj, .memoize]) ds st1.next := by
@@ -981,7 +981,7 @@ end
 
 structure GraphOK (cfg : DecCfg) (g : Heap) : Prop where
   dec : DecOK cfg
-  host : ∀ (a : Nat) m n args, g[a]? = some (.host m n args) → ∃ fh, cfg.host = some fh ∧ ∀ ys, fh m n ys = .construct
+  host : ∀ (a : Nat) m n args, g[a]? = some (.host m n args) → ∃ fh, cfg.host = some fh ∧ ∀ h b ys, fh h b m n ys = .construct
   keys : g.keysOK = true
   sizes : ∀ o ∈ g, o.sizeOK = true
   small : g.length < 4294967296
